@@ -298,6 +298,7 @@ fn test(c: &Case, st: &mut Stats) -> TestResult {
             );
             stable_reencode(kind, &typed, tid)?;
             let _ = guard(|| typed.display()).map_err(|p| Fail::new("c08-panic", format!("Display/Debug panicked: {}", p)))?;
+            other_construction_paths(kind, fields, &typed, &want, st)?;
             st.class(&format!("encode {:?}", kind));
             if want.len() % 4 != 0 || near_boundary(kind, want.len()) {
                 st.nontrivial(digest(&(kind, &want)));
@@ -307,6 +308,103 @@ fn test(c: &Case, st: &mut Stats) -> TestResult {
             });
         }
     }
+    Ok(())
+}
+
+/// The same value reached through the other public ways of building it (incremental
+/// `add_attribute`, the ERROR-CODE builder) must be the same value: equal, same queries, same bytes.
+fn other_construction_paths(kind: Kind, fields: &Fields, typed: &Typed, want: &[u8], st: &mut Stats) -> TestResult {
+    match (typed, fields) {
+        (Typed::UnknownAttributes(whole), Fields::Types(list)) => {
+            let mut distinct: Vec<u16> = vec![];
+            for t in list {
+                if !distinct.contains(t) {
+                    distinct.push(*t);
+                }
+            }
+            let n = distinct.len();
+            let d = digest(&list);
+            let mut splits = vec![0usize, n / 2, n.saturating_sub(1), n, (d as usize) % (n + 1)];
+            splits.sort();
+            splits.dedup();
+            let reference = if n == list.len() { whole.clone() } else { UnknownAttributes::new(&distinct.iter().map(|t| AttributeType::new(*t)).collect::<Vec<_>>()) };
+            let ref_raw = reference.to_raw().value.to_vec();
+            for k in splits {
+                let head: Vec<AttributeType> = distinct[..k].iter().map(|t| AttributeType::new(*t)).collect();
+                let mut u = UnknownAttributes::new(&head);
+                for (i, t) in distinct[k..].iter().enumerate() {
+                    u.add_attribute(AttributeType::new(*t));
+                    // adding a type that is already listed changes nothing
+                    if (d >> (i % 60)) & 3 == 0 {
+                        u.add_attribute(AttributeType::new(distinct[(d as usize + i) % (k + i + 1)]));
+                    }
+                    ensure!(
+                        u.has_attribute(AttributeType::new(*t)),
+                        "c08-fields",
+                        "UNKNOWN-ATTRIBUTES built from {} types + add_attribute: {:#06x} was just added (entry {}) but has_attribute says no",
+                        k,
+                        t,
+                        k + i + 1
+                    );
+                }
+                let raw = u.to_raw().value.to_vec();
+                let missing: Vec<u16> = distinct.iter().copied().filter(|t| !u.has_attribute(AttributeType::new(*t))).collect();
+                ensure!(
+                    raw == ref_raw && u == reference && missing.is_empty() && u.length() as usize == ref_raw.len(),
+                    "c08-encode",
+                    "UNKNOWN-ATTRIBUTES of {} distinct types built as new(first {}) + add_attribute(rest) differs from new(all): encodes {} vs {}, equal={}, not reported: {:04x?}",
+                    n,
+                    k,
+                    hex_short(&raw),
+                    hex_short(&ref_raw),
+                    u == reference,
+                    missing
+                );
+                for probe in [0u16, 0xffff, distinct.first().copied().unwrap_or(9) ^ 0x0101] {
+                    ensure!(
+                        u.has_attribute(AttributeType::new(probe)) == distinct.contains(&probe),
+                        "c08-fields",
+                        "UNKNOWN-ATTRIBUTES built incrementally: has_attribute({:#06x}) is wrong",
+                        probe
+                    );
+                }
+            }
+            if n > 8 {
+                st.class("UNKNOWN-ATTRIBUTES with more than 8 types built incrementally");
+            }
+        }
+        (Typed::ErrorCode(e), Fields::ErrorCode { code, reason }) => {
+            let b = ErrorCode::builder(*code).reason(reason).build();
+            match b {
+                Ok(b) => ensure!(
+                    b == *e && b.to_raw().value.to_vec() == want && b.code() == *code && b.reason() == reason,
+                    "c08-encode",
+                    "ErrorCode::builder({}).reason(..) gives code {} reason {:?} encoding {}, ErrorCode::new gives {}",
+                    code,
+                    b.code(),
+                    b.reason(),
+                    hex_short(&b.to_raw().value),
+                    hex_short(want)
+                ),
+                Err(err) => return Err(Fail::new("c08-encode", format!("ErrorCode::builder({}) refuses what ErrorCode::new accepts: {:?}", code, err))),
+            }
+            // without a reason: the documented default reason for the code
+            if let Ok(d) = ErrorCode::builder(*code).build() {
+                ensure!(
+                    d.code() == *code && d.reason() == ErrorCode::default_reason_for_code(*code),
+                    "c08-encode",
+                    "ErrorCode::builder({}).build() gives code {} reason {:?}",
+                    code,
+                    d.code(),
+                    d.reason()
+                );
+            } else {
+                return Err(Fail::new("c08-encode", format!("ErrorCode::builder({}).build() refuses a code that ErrorCode::new accepts", code)));
+            }
+        }
+        _ => {}
+    }
+    let _ = kind;
     Ok(())
 }
 
